@@ -88,10 +88,19 @@ func WriteNdJson(env *dsl.Environment, options packaging.CppCodegenOptions) erro
 	}
 
 	unionsBySyntax := make(map[string]*dsl.GeneralizedType)
+	visitedDefinitions := make(map[dsl.TypeDefinition]bool)
 	dsl.Visit(env, func(self dsl.Visitor, node dsl.Node) {
 		switch t := node.(type) {
 		case *dsl.SimpleType:
-			self.Visit(t.ResolvedDefinition)
+			// visit every referenced definition once, not once per path that leads to it
+			if !visitedDefinitions[t.ResolvedDefinition] {
+				visitedDefinitions[t.ResolvedDefinition] = true
+				self.Visit(t.ResolvedDefinition)
+			}
+			if len(t.ResolvedDefinition.GetDefinitionMeta().TypeArguments) > 0 {
+				// the type arguments have been substituted into the definition just visited
+				return
+			}
 		case *dsl.GeneralizedType:
 			if t.Cases.IsUnion() {
 				// Convert the union cases to their u types so we don't generate
@@ -449,6 +458,7 @@ func writeUnionConverters(w *formatting.IndentedWriter, unionType *dsl.Generaliz
 
 	typeParameters := make(map[string]any)
 	templateParameters := make([]string, 0)
+	visitedDefinitions := make(map[dsl.TypeDefinition]bool)
 	dsl.Visit(unionType, func(self dsl.Visitor, node dsl.Node) {
 		switch node := node.(type) {
 		case *dsl.GenericTypeParameter:
@@ -460,7 +470,10 @@ func writeUnionConverters(w *formatting.IndentedWriter, unionType *dsl.Generaliz
 		case *dsl.NamedType:
 			self.Visit(node.Type)
 		case *dsl.SimpleType:
-			self.Visit(node.ResolvedDefinition)
+			if !visitedDefinitions[node.ResolvedDefinition] {
+				visitedDefinitions[node.ResolvedDefinition] = true
+				self.Visit(node.ResolvedDefinition)
+			}
 		default:
 			self.VisitChildren(node)
 		}
